@@ -229,7 +229,8 @@ def extract(tu, flags, roots, out, only=None, no_patterns=False):
             os.remove(out)
         except OSError:
             pass
-        raise AnalysisBroken("extractor failed on %s:\n%s" % (tu, (r.stderr or "")[-4000:]))
+        first = [l for l in (r.stderr or "").splitlines() if " error: " in l][:4]
+        raise AnalysisBroken("extractor failed on %s:\n%s\n...\n%s" % (tu, "\n".join(first), (r.stderr or "")[-3000:]))
     return out
 
 
